@@ -74,3 +74,8 @@ Proof. vm_compute. repeat split; reflexivity. Qed.
 Lemma sign_hashers_agree :
   gen_sign_hashers = [("btcec.S256", "SHA256"); ("elliptic.P256", "SHA256"); ("elliptic.P384", "SHA384"); ("elliptic.P521", "SHA512")].
 Proof. reflexivity. Qed.
+
+(* the protocol the long-form document handler runs with *)
+From Sidetree Require Import Sidetree.LongForm.
+Lemma longform_protocol_agrees : gen_longform_protocol = longform_protocol.
+Proof. reflexivity. Qed.
